@@ -876,6 +876,182 @@ def r15_impl_trait_args(toks, counts):
     return out
 
 
+KEYWORDS_STOP = ('return', 'let', 'in', 'if', 'else', 'match', 'while', 'for', 'loop', 'break', 'mut', 'ref', 'move', 'as')
+
+
+def _postfix_start(out, end):
+    """index in `out` where the postfix expression ending at out[end] (inclusive) starts"""
+    j = end
+    while True:
+        while j >= 0 and out[j][0] in TRIVIA:
+            j -= 1
+        if j < 0:
+            raise ExtractError('postfix walker ran off the start')
+        t = out[j]
+        if t[0] == 'p' and t[1] in ')]':
+            depth = 0
+            while j >= 0:
+                if out[j][0] == 'p' and out[j][1] in ')]':
+                    depth += 1
+                elif out[j][0] == 'p' and out[j][1] in '([':
+                    depth -= 1
+                    if depth == 0:
+                        break
+                j -= 1
+            start = j
+            p = prev_sig(out, j - 1)
+            if p >= 0 and out[p][0] == 'id' and out[p][1] not in KEYWORDS_STOP:
+                j = p
+                continue
+            if p >= 0 and is_p(out[p], '!'):
+                # macro call: name!( .. )
+                q = prev_sig(out, p - 1)
+                if q >= 0 and out[q][0] == 'id':
+                    j = q
+                    continue
+            return start
+        if is_p(t, '?'):
+            j -= 1
+            continue
+        if t[0] in ('id', 'num', 'str', 'chr') and not (t[0] == 'id' and t[1] in KEYWORDS_STOP):
+            start = j
+            p = prev_sig(out, j - 1)
+            if p >= 0 and is_p(out[p], '.'):
+                j = p - 1
+                continue
+            if p >= 1 and is_p(out[p], ':') and is_p(out[p - 1], ':'):
+                j = p - 2
+                continue
+            return start
+        raise ExtractError('postfix walker: unexpected token %r' % (t,))
+
+
+def r16_into(toks, counts):
+    """`E.into()` -> `into_conv(E)` (E = the whole postfix expression before `.into()`)"""
+    out = []
+    i = 0
+    n = len(toks)
+    while i < n:
+        t = toks[i]
+        if is_p(t, '.'):
+            nx = next_sig(toks, i + 1)
+            if nx < n and is_id(toks[nx], 'into'):
+                op = next_sig(toks, nx + 1)
+                if op < n and is_p(toks[op], '('):
+                    cl = match_close(toks, op)
+                    if all(x[0] in TRIVIA for x in toks[op + 1:cl]):
+                        end = len(out) - 1
+                        start = _postfix_start(out, end)
+                        recv = out[start:]
+                        while recv and recv[-1][0] == 'ws':
+                            recv.pop()
+                        del out[start:]
+                        out.append(('id', 'into_conv'))
+                        out.append(('p', '('))
+                        out.extend(recv)
+                        out.append(('p', ')'))
+                        counts['R16'] = counts.get('R16', 0) + 1
+                        i = cl + 1
+                        continue
+        out.append(t)
+        i += 1
+    return out
+
+
+def r9_enumerate(toks, counts):
+    """`for (i, P) in E.enumerate() { B }`            ->  `{ let mut i: usize = 0; for P in E { B i += 1; } }`
+       `for (i, P) in E.enumerate().skip(N) { B }`    ->  same with the body guarded by `if i >= N { B }`
+    side conditions: B contains no `continue`/`break` and does not assign to i."""
+    n = len(toks)
+    i = 0
+    while i < n:
+        if is_id(toks[i], 'for'):
+            a = next_sig(toks, i + 1)
+            if a < n and is_p(toks[a], '('):
+                cl = match_close(toks, a)
+                inn = next_sig(toks, cl + 1)
+                first = next_sig(toks, a + 1)
+                comma = next_sig(toks, first + 1)
+                if inn < n and is_id(toks[inn], 'in') and toks[first][0] == 'id' and is_p(toks[comma], ','):
+                    # find the body brace
+                    k = inn + 1
+                    while k < n and not is_p(toks[k], '{'):
+                        if toks[k][0] == 'p' and toks[k][1] in '([':
+                            k = match_close(toks, k)
+                        k += 1
+                    head = toks[inn + 1:k]
+                    sig = [x for x in head if x[0] not in TRIVIA]
+                    texts = [x[1] for x in sig]
+                    skip_arg = None
+                    cut = None
+                    # ... . enumerate ( )   or   ... . enumerate ( ) . skip ( N )
+                    if texts[-4:] == ['.', 'enumerate', '(', ')']:
+                        cut = 4
+                    elif len(texts) >= 8 and 'skip' in texts:
+                        # locate ". enumerate ( ) . skip (" then argument then ")"
+                        for q in range(len(texts) - 6):
+                            if texts[q:q + 7] == ['.', 'enumerate', '(', ')', '.', 'skip', '('] and texts[-1] == ')':
+                                cut = len(texts) - q
+                                skip_arg = sig[q + 7:-1]
+                                break
+                    if cut is not None:
+                        # token index in `head` of the q-th significant token from the end
+                        sig_idx = [idx for idx, x in enumerate(head) if x[0] not in TRIVIA]
+                        head_keep = head[:sig_idx[len(sig) - cut]]
+                        while head_keep and head_keep[-1][0] == 'ws':
+                            head_keep.pop()
+                        body_close = match_close(toks, k)
+                        body = toks[k + 1:body_close]
+                        ctr = toks[first][1]
+                        for bt_i, bt in enumerate(body):
+                            if bt[0] == 'id' and bt[1] in ('continue', 'break'):
+                                raise ExtractError('R9: continue/break inside an enumerate loop body')
+                            if is_id(bt, ctr):
+                                nb = next_sig(body, bt_i + 1)
+                                if nb < len(body) and is_p(body[nb], '=') and not (nb + 1 < len(body) and is_p(body[nb + 1], '=')):
+                                    raise ExtractError('R9: loop counter assigned in the body')
+                        pat = toks[comma + 1:cl]
+                        while pat and pat[0][0] == 'ws':
+                            pat.pop(0)
+                        while pat and pat[-1][0] == 'ws':
+                            pat.pop()
+                        ind = _line_indent(toks, i)
+                        new = []
+                        new += [('p', '{'), ('ws', '\n' + ind + '    '), ('id', 'let'), ('ws', ' '), ('id', 'mut'), ('ws', ' '),
+                                ('id', ctr), ('p', ':'), ('ws', ' '), ('id', 'usize'), ('ws', ' '), ('p', '='), ('ws', ' '), ('num', '0'), ('p', ';'),
+                                ('ws', '\n' + ind + '    ')]
+                        new += [('id', 'for'), ('ws', ' ')] + pat + [('ws', ' '), ('id', 'in'), ('ws', ' ')]
+                        hk = list(head_keep)
+                        while hk and hk[0][0] == 'ws':
+                            hk.pop(0)
+                        new += hk + [('ws', ' '), ('p', '{')]
+                        inner = []
+                        for bt in body:
+                            if bt[0] == 'ws' and '\n' in bt[1]:
+                                inner.append(('ws', bt[1] + '    ' + ('    ' if skip_arg is not None else '')))
+                            else:
+                                inner.append(bt)
+                        # drop trailing ws of body
+                        while inner and inner[-1][0] == 'ws':
+                            inner.pop()
+                        if skip_arg is not None:
+                            new += [('ws', '\n' + ind + '        '), ('id', 'if'), ('ws', ' '), ('id', ctr), ('ws', ' '), ('p', '>'), ('p', '='), ('ws', ' ')]
+                            new += skip_arg + [('ws', ' '), ('p', '{')]
+                            new += inner
+                            new += [('ws', '\n' + ind + '        '), ('p', '}')]
+                        else:
+                            new += inner
+                        new += [('ws', '\n' + ind + '        '), ('id', ctr), ('ws', ' '), ('p', '+'), ('p', '='), ('ws', ' '), ('num', '1'), ('p', ';'),
+                                ('ws', '\n' + ind + '    '), ('p', '}'), ('ws', '\n' + ind), ('p', '}')]
+                        toks = toks[:i] + new + toks[body_close + 1:]
+                        n = len(toks)
+                        counts['R9'] = counts.get('R9', 0) + 1
+                        i += 1
+                        continue
+        i += 1
+    return toks
+
+
 def cleanup_lines(text):
     lines = [l.rstrip() for l in text.split('\n')]
     return [l for l in lines if l.strip() != '']
@@ -916,6 +1092,10 @@ def extract_region(src_text, path, opts=None):
             item = r7_visibility(item, counts)
             item = r7b_struct_pub(item, counts)
         elif r == 'R13':
+            if 'R9' in opts.get('rules', ()):
+                item = r9_enumerate(item, counts)
+            if 'R16' in opts.get('rules', ()):
+                item = r16_into(item, counts)
             item = r13_binders(item, counts)
     if 'R10' in opts.get('rules', ()):
         item = r10_trailing_continue(item, counts)
